@@ -44,7 +44,9 @@ type Scenario struct {
 	TimeoutMs int        `json:"timeout_ms"`       // PushTask timeout: 1 (timeouts occur) or 3600000
 	Warmup    []PushSpec `json:"warmup,omitempty"` // pushed (by one producer) and drained before the pins
 	Pins      []int      `json:"pins,omitempty"`
-	Rush      bool       `json:"rush,omitempty"` // push, cancel and Wait right after New, without settling
+	Rush      bool       `json:"rush,omitempty"`       // push, cancel and Wait right after New, without settling
+	Waiters   int        `json:"waiters,omitempty"`    // concurrent Wait() callers (default 1)
+	EarlyWait bool       `json:"early_wait,omitempty"` // the extra Wait() callers are already parked in Wait when the cancel comes
 	// SlowPoint/SlowLane: the hook holds that lane's goroutine for 100 µs at that point on every hit
 	// (a directed delay at a genuine preemption point, on top of the hashed perturbation)
 	SlowPoint string       `json:"slow_point,omitempty"`
@@ -199,6 +201,10 @@ func hook(ctx context.Context, point string, lane int) {
 
 type panicStruct struct{ N int }
 
+// uncomparable dynamic types: comparing two such values with == panics at run time
+type panicSlice []int
+type panicMap map[string]int
+
 func (t *task) Start() {
 	sc := t.sc
 	n := t.enters.Add(1)
@@ -275,6 +281,10 @@ func (sc *scn) newTask(spec TaskSpec) *task {
 			t.panicVal = panicStruct{t.id}
 		case "pointer":
 			t.panicVal = &panicStruct{t.id}
+		case "slice":
+			t.panicVal = panicSlice{t.id, 7}
+		case "map":
+			t.panicVal = panicMap{"task": t.id}
 		default:
 			t.panicVal = fmt.Sprintf("panic of task %d", t.id)
 		}
@@ -289,7 +299,11 @@ func (sc *scn) push(t *task, lane int) {
 	}
 	t.lane.Store(int32(lane))
 	t.pushCall.Store(sc.stamp())
-	err := sc.tl.PushTask(t, lane)
+	var arg tasklane.Task = t
+	if t.spec.Kind == "nil" {
+		arg = nil // a nil Task: cannot be started (the worker recovers the nil dereference); excluded from the counts
+	}
+	err := sc.tl.PushTask(arg, lane)
 	t.rc.Store(classify(err))
 	t.pushRet.Store(sc.stamp())
 }
@@ -390,6 +404,9 @@ func shortFn(f string) string {
 
 func (sc *scn) counts() (accepted, started, rejected int) {
 	for _, t := range sc.tasks {
+		if t.spec.Kind == "nil" {
+			continue
+		}
 		if t.rc.Load() == rcNil {
 			accepted++
 		} else if t.rc.Load() > rcNil {
